@@ -48,12 +48,19 @@ def run(ctx):
     tf = os.path.join(ctx.scratch, "idtable.ndjson"); rf = os.path.join(ctx.scratch, "idruns.ndjson")
     open(tf, "w").write("".join(json.dumps(dict(lo=a, hi=b)) + "\n" for a, b in rows))
     open(rf, "w").write("".join(json.dumps(dict(lo=a, hi=b)) + "\n" for a, b in ir["runs"]))
+    common.corrupt_trace(rf, ["hi"])
     itxt, iinfo = common.tlc(ctx, "ZnIdRange", "ZnIdRange.cfg", workers=1, timeout=600, files=[(tf, "idtable.ndjson"), (rf, "idruns.ndjson")], allow_violation=True)
     if iinfo["violated"]:
-        which = [w for w in ("SameSet", "TableSortedDisjoint", "RowsWellFormed") if ("Invariant " + w) in itxt]
+        which = [w for w in ("SameSet", "TableSortedDisjoint", "RowsWellFormed") if ("Invariant " + w) in itxt or ("invariant of " + w + " is equal to FALSE") in itxt]
         if not which:
             raise common.NoVerdict("ZnIdRange failed unexpectedly:\n" + common.tail(itxt))
-        common.report(ctx, "idrange:%s" % which[0], "IdInRange over all code points disagrees with the interval table (%s)" % which[0], dict(rows=len(rows), runs=len(ir["runs"])))
+        # for the message only (the verdict is TLC's): first differing code points
+        tab = set(); got = set()
+        for a, b_ in rows: tab.update(range(a, b_ + 1))
+        for a, b_ in ir["runs"]: got.update(range(a, b_ + 1))
+        diff = sorted(tab ^ got)[:8]
+        common.report(ctx, "idrange:%s" % which[0], "IdInRange over all code points disagrees with the interval table (%s), e.g. at %s" % (which[0], ["U+%04X" % d for d in diff]),
+                      dict(rows=len(rows), runs=len(ir["runs"]), first_differences=["U+%04X" % d for d in diff]))
     if any(ir["extra"]):
         common.report(ctx, "idrange:out-of-domain", "IdInRange is true for a negative / huge value: %s" % ir["extra"], dict(extra=ir["extra"]))
     # ------------------------------------------------------------ tokenisation
